@@ -8,6 +8,7 @@ import (
 
 	"github.com/fabiolb/fabio/proxy"
 	"github.com/fabiolb/fabio/route"
+	gkm "github.com/go-kit/kit/metrics"
 	"verif/harness/hx"
 )
 
@@ -32,6 +33,33 @@ type seqAns struct {
 	Location string `json:"location"`
 	HasLoc   bool   `json:"hasloc"`
 	Panic    string `json:"panic,omitempty"`
+	// what the request added to the redirect counter (proxy.Stats.RedirectCounter, set as main.go sets it)
+	Counted   int    `json:"counted"`
+	CountCode string `json:"countcode,omitempty"`
+}
+
+// redirCounter is a go-kit counter that remembers its increments and the last "code" label.
+type redirCounter struct {
+	n    *int
+	code *string
+	lbl  string
+}
+
+func newRedirCounter() *redirCounter { return &redirCounter{n: new(int), code: new(string)} }
+
+func (c *redirCounter) With(labelValues ...string) gkm.Counter {
+	d := *c
+	for i := 0; i+1 < len(labelValues); i += 2 {
+		if labelValues[i] == "code" {
+			d.lbl = labelValues[i+1]
+		}
+	}
+	return &d
+}
+
+func (c *redirCounter) Add(delta float64) {
+	*c.n += int(delta)
+	*c.code = c.lbl
 }
 
 type seqOut struct {
@@ -49,11 +77,13 @@ func runSeq(in seqIn) (interface{}, error) {
 		return seqOut{Err: "route"}, nil
 	}
 	cache := route.NewGlobCache(100)
+	cnt := newRedirCounter()
 	p := &proxy.HTTPProxy{
 		Transport: http.DefaultTransport,
 		Lookup: func(r *http.Request) *route.Target {
 			return tbl.Lookup(r, "", route.Picker["rr"], route.Matcher["prefix"], cache, true)
 		},
+		Stats: proxy.HttpStatsHandler{RedirectCounter: cnt},
 	}
 	out := seqOut{T: dumpTarget(firstTarget(tbl)), Answ: []seqAns{}}
 	for _, rq := range in.Reqs {
@@ -68,7 +98,11 @@ func runSeq(in seqIn) (interface{}, error) {
 		}
 		rec := httptest.NewRecorder()
 		a := seqAns{}
-		if msg := serveRecover(p, rec, req); msg != "" {
+		before := *cnt.n
+		*cnt.code = ""
+		msg := serveRecover(p, rec, req)
+		a.Counted, a.CountCode = *cnt.n-before, *cnt.code
+		if msg != "" {
 			a.Panic = msg
 		} else {
 			a.Status = rec.Code
